@@ -673,10 +673,13 @@ fn check_group(rep: &mut Reporter, g: &Group) {
     rep.count(if all_valid { "groups_valid_inputs" } else { "groups_invalid_inputs" });
     if nontriv {
         rep.count(if all_valid { "groups_valid_with_effective_deletion" } else { "groups_invalid_with_effective_deletion" });
-        let mut canon: Vec<St> = g.states.to_vec();
-        canon.sort();
-        rep.nontrivial(hash_of(&(kind, canon)));
-        rep.sample(|| json!({"kind": kind_name(kind), "family": g.fam, "states": g.states.iter().map(|s| s.json()).collect::<Vec<_>>(), "plans": g.plans.len()}));
+        if all_valid {
+            // only histories on which every clause is judged count as non-trivial
+            let mut canon: Vec<St> = g.states.to_vec();
+            canon.sort();
+            rep.nontrivial(hash_of(&(kind, canon)));
+            rep.sample(|| json!({"kind": kind_name(kind), "family": g.fam, "states": g.states.iter().map(|s| s.json()).collect::<Vec<_>>(), "plans": g.plans.len()}));
+        }
     }
 }
 
@@ -1046,7 +1049,7 @@ fn main() {
         rep.require(miri || rep.counter(&format!("cmp_{o}")) >= 100, &format!("fewer than 100 comparisons whose model answer is {o}"));
     }
     rep.finish(
-        "Replica states (live,tombs) over an index domain mapped to u64 items (Roaring, HashSet) and strings (FST, HashSet); set variant and map variants with Max<u8> / SetUnion<HashSet<u8>> values incl. bottom values. Exhaustive: every multiset of 2 (quick: also 3 of the valid states; thorough: 3 of all) of all 64 set states over 3 items, every multiset of 2 of all 512 map states over 3 keys x 3 value codes (thorough: + 3 of 100 states over 2 keys x 4 codes), each in every distinct order, with same-type / Vec-backed / singleton-delta `other` operands; random 4- (thorough 5-) replica histories over 3..8 items in up to 24 (20) orders plus tree-shaped merge plans, one fifth with invariant-violating inputs (only the no-resurrection clause is required of those). After every merge as_reveal_ref() is read back (iteration, len and contains must agree) and compared with live=U live - U tombs, tombs=U tombs, disjointness, changed flag, order-independence and cross-backend equality; partial_cmp/== of the HashSet-backed types are compared with the merge-induced order on all pairs of valid states. Non-trivial history = distinct multiset of states in which some item is deleted (tombstoned, not live) in one replica and live in another; non-trivial comparison = distinct ordered pair of different states.",
+        "Replica states (live,tombs) over an index domain mapped to u64 items (Roaring, HashSet) and strings (FST, HashSet); set variant and map variants with Max<u8> / SetUnion<HashSet<u8>> values incl. bottom values. Exhaustive: every multiset of 2 (quick: also 3 of the valid states; thorough: 3 of all) of all 64 set states over 3 items, every multiset of 2 of all 512 map states over 3 keys x 3 value codes (thorough: + 3 of 100 states over 2 keys x 4 codes), each in every distinct order, with same-type / Vec-backed / singleton-delta `other` operands; random 4- (thorough 5-) replica histories over 3..8 items in up to 24 (20) orders plus tree-shaped merge plans, one fifth with invariant-violating inputs (only the no-resurrection clause is required of those). After every merge as_reveal_ref() is read back (iteration, len and contains must agree) and compared with live=U live - U tombs, tombs=U tombs, disjointness, changed flag, order-independence and cross-backend equality; partial_cmp/== of the HashSet-backed types are compared with the merge-induced order on all pairs of valid states. Non-trivial history = distinct multiset of invariant-respecting states in which some item is deleted (tombstoned, not live) in one replica and live in another (histories with invariant-violating inputs are counted separately); non-trivial comparison = distinct ordered pair of different states.",
         true,
     );
 }
